@@ -18,6 +18,9 @@ C04_inf1 == [cyclic |-> 4, annTTL |-> FOREVER, collect |-> 1, subTTL |-> FOREVER
 \* both stacks have been up for long: session counters past their first wrap (reboot flag cleared), about to wrap again
 C04_wrap == [sess0 |-> <<FALSE, 65532>>] @@ C04_fin
 M_wrap == [bound |-> 16, needAlive |-> FALSE]
+\* infinite TTLs, offers only in the initial and repetition phases (no cyclic offers)
+C04_nocyc == [cyclic |-> 0, annTTL |-> FOREVER, collect |-> 0, reps |-> 2, base |-> 1, subTTL |-> FOREVER, refresh |-> 0] @@ C04_Base
+M_nocyc == [bound |-> 9, needAlive |-> TRUE]
 M_fin  == [bound |-> 16, needAlive |-> FALSE]
 M_fin1 == [bound |-> 18, needAlive |-> FALSE]
 M_init == [bound |-> 14, needAlive |-> FALSE]
